@@ -168,7 +168,7 @@ CHECKS = {
         tests=[
             dict(name="TestC02Witness", quick=dict(timeout=600), thorough=dict(timeout=600)),
             dict(name="TestC02E2E", quick=dict(checks=12, shards=10, timeout=900), thorough=dict(checks=300, shards=10, timeout=3400)),
-            dict(name="TestC02Handler", quick=dict(checks=60, shards=6, timeout=900), thorough=dict(checks=1500, shards=6, timeout=3400)),
+            dict(name="TestC02Handler", quick=dict(checks=60, shards=6, timeout=900), thorough=dict(checks=900, shards=6, timeout=3400)),
         ]),
     "C04": dict(
         pkg="c04", level="exploration",
